@@ -21,8 +21,8 @@ import (
 	"time"
 
 	"github.com/alephium/wormhole-fork/node/pkg/common"
-	"github.com/alephium/wormhole-fork/node/pkg/readiness"
 	gossipv1 "github.com/alephium/wormhole-fork/node/pkg/proto/gossip/v1"
+	"github.com/alephium/wormhole-fork/node/pkg/readiness"
 	"github.com/alephium/wormhole-fork/node/pkg/supervisor"
 	"github.com/alephium/wormhole-fork/node/pkg/vaa"
 	"go.uber.org/zap"
@@ -293,6 +293,7 @@ func startScen(cfg scenCfg) (*scen, error) {
 		return nil, err
 	}
 	ss.sim.lastProcessed = cfg.Head0
+	ss.sim.finalizedMode = cfg.Finalized
 	sc := &scen{cfg: cfg, ss: ss, sim: ss.sim, msgC: make(chan *common.MessagePublication, 4096), obsvC: make(chan *gossipv1.ObservationRequest),
 		logs: map[int]*simLog{}, insts: map[[4]uint64]*gtInst{}, stats: map[string]int{}}
 	setC := make(chan *common.GuardianSet, 8)
@@ -1055,6 +1056,9 @@ func runScenario(sid int, cfg scenCfg, script []step) histRow {
 	sc.sim.mu.Lock()
 	for k, v := range sc.sim.numStrs {
 		sc.stats["poll_"+k] += v
+		if (cfg.Finalized && k != "finalized") || (!cfg.Finalized && k != "latest") {
+			sc.monf("safety:head-source", "the watcher asked the node for block %q %d times (finalized-height mode: %v)", k, v, cfg.Finalized)
+		}
 	}
 	sc.stats["polls_failed"] = int(sc.sim.pollsFailed)
 	sc.sim.mu.Unlock()
